@@ -17,6 +17,9 @@
 (*   logic   : nodes (DAG of literals / conjunctions / disjunctions, deterministic and       *)
 (*             decomposable by construction), root, mc = what integrate returned          *)
 (*             value(x) = truth value of the formula, mc = number of models                *)
+(*   rel     : a relation the specification demands of circuits with Gaussian inputs (real    *)
+(*             arithmetic is outside TLC): product / marginal / conjugate, measured by the    *)
+(*             driver in float64 (DESIGN.md section 4.3); the specification demands rel_ok    *)
 (*   norm    : (C12) the booleans measured by the driver on a template built with        *)
 (*             normalised parameterisations; the specification demands all of them       *)
 EXTENDS Integers, Sequences, FiniteSets, TLC, Json, IOUtils
@@ -90,6 +93,7 @@ Formula(e, x) ==
 
 Clause(e) ==
   IF ~e.ok THEN 1
+  ELSE IF e.kind = "rel" THEN (IF e.rel_ok THEN 0 ELSE 20)   \* a measured relation (Gaussian inputs)
   ELSE IF e.kind = "norm" THEN        \* C12: a normalised parameterisation gives a distribution
     (IF ~e.z_ok THEN 11               \* partition function (compiled symbolic integrate) = 1
      ELSE IF ~e.brute_ok THEN 12      \* brute-force sum over all assignments = 1
